@@ -1,0 +1,233 @@
+//go:build verif
+
+// Contracts for govc (/verif): C20 "Round links only move forward and never point at their own chain" -- storage side.
+// Comment-only file.
+//
+// PART 1: the Store INTERFACE as the kernel sees it (assumed contracts; kernel/graph.go is verified against them).
+// The state of a store is abstracted by a ghost version number  ghostint(storever, ptrof(s))  (a new, unconstrained
+// number after every mutating call) and uninterpreted observation functions of (version, key):
+//   SLink(v, from, to)      the durable link from -> to (0 when there is none: readLink returns 0 on ErrKeyNotFound)
+//   SHasRound(v, h)         a ROUND record is stored under h
+//   SRoundNodeId/SRoundNumber/SRoundSelf/SRoundExternal(v, h)   fields of that record
+// PART 2 (below) verifies the BadgerStore implementation of the same methods against the key-value model T-KV
+// (trusted/badger.spec); the correspondence SLink(v, f, t) == LinkOf(db, f, t) etc. between the two parts is by
+// reading the clauses side by side (meta-level; the engine does not check that an implementation refines an interface contract).
+
+package storage
+
+//@ uninterp SLink(v mathint, from crypto.Hash, to crypto.Hash) mathint
+//@ uninterp SHasRound(v mathint, h crypto.Hash) bool
+//@ uninterp SRoundNodeId(v mathint, h crypto.Hash) crypto.Hash
+//@ uninterp SRoundNumber(v mathint, h crypto.Hash) mathint
+//@ uninterp SRoundSelf(v mathint, h crypto.Hash) crypto.Hash
+//@ uninterp SRoundExternal(v mathint, h crypto.Hash) crypto.Hash
+//@ spec StoreVer(s Store) mathint = ghostint(storever, ptrof(s))
+
+//@ assume func (s Store) ReadLink(from, to)
+//@   modifies nothing
+//@   ensures [link] err == nil ==> result0 == SLink(StoreVer(recv), from, to)
+
+//@ assume func (s Store) ReadRound(hash)
+//@   -- readRound: (nil, nil) when the key is absent, (nil, err) on error, otherwise the decoded record (a new object); it
+//@   -- panics on a record whose Hash field is zero, so a returned round has a non-zero Hash
+//@   modifies nothing
+//@   ensures [err] err != nil ==> result0 == nil
+//@   ensures [absent] err == nil && result0 == nil ==> !SHasRound(StoreVer(recv), hash)
+//@   ensures [found] result0 != nil ==> fresh(result0) && SHasRound(StoreVer(recv), hash) && result0.Hash.HasValue() &&
+//@       result0.NodeId == SRoundNodeId(StoreVer(recv), hash) && result0.Number == SRoundNumber(StoreVer(recv), hash)
+//@   -- store invariant: a ROUND record is stored under its own Hash field (every writeRound call of startNewRound /
+//@   -- UpdateEmptyHeadRound writes such a record: PART 2, clauses [self-rec]/[head-rec]; LoadGenesis is not verified)
+//@   ensures [keyed] result0 != nil ==> result0.Hash == hash
+
+//@ assume func (s Store) StartNewRound(node, number, references, finalStart)
+//@   -- one badger transaction: [number != 0: the link node -> external.NodeId := external.Number, the old head record is
+//@   -- re-stored under references.Self as the final round], a new head record under node; Commit last (all or nothing).
+//@   requires references != nil
+//@   requires [rounds] number != 0 ==> SHasRound(StoreVer(recv), node) && SHasRound(StoreVer(recv), references.External) -- startNewRound dereferences both records
+//@   modifies ghost storever
+//@   ensures [fail] err != nil ==> StoreVer(recv) == old(StoreVer(recv))
+//@   ensures [link] err == nil && number != 0 ==>
+//@       SLink(StoreVer(recv), node, old(SRoundNodeId(StoreVer(recv), references.External))) == old(SRoundNumber(StoreVer(recv), references.External))
+//@   -- the LINK key is Blake3(from | to): that no other link changes is collision freeness of the hash (idealised)
+//@   ensures [links-frame] err == nil ==> forall t crypto.Hash :: {SLink(StoreVer(recv), node, t)}
+//@       (number == 0 || t != old(SRoundNodeId(StoreVer(recv), references.External))) ==> SLink(StoreVer(recv), node, t) == old(SLink(StoreVer(recv), node, t))
+//@   ensures [head] err == nil ==> SHasRound(StoreVer(recv), node) && SRoundNodeId(StoreVer(recv), node) == node && SRoundNumber(StoreVer(recv), node) == number &&
+//@       SRoundSelf(StoreVer(recv), node) == references.Self && SRoundExternal(StoreVer(recv), node) == references.External
+//@   ensures [prev] err == nil && number != 0 ==> SHasRound(StoreVer(recv), references.Self) &&
+//@       SRoundNodeId(StoreVer(recv), references.Self) == old(SRoundNodeId(StoreVer(recv), node)) && SRoundNumber(StoreVer(recv), references.Self) == old(SRoundNumber(StoreVer(recv), node))
+//@   ensures [rounds-kept] err == nil ==> forall h crypto.Hash :: {SHasRound(StoreVer(recv), h)} h != node && h != references.Self ==>
+//@       SHasRound(StoreVer(recv), h) == old(SHasRound(StoreVer(recv), h)) && SRoundNodeId(StoreVer(recv), h) == old(SRoundNodeId(StoreVer(recv), h)) &&
+//@       SRoundNumber(StoreVer(recv), h) == old(SRoundNumber(StoreVer(recv), h))
+
+//@ assume func (s Store) UpdateEmptyHeadRound(node, number, references)
+//@   -- one badger transaction: the link node -> external.NodeId := external.Number and a new head record under node with
+//@   -- the new references; Commit last. The implementation panics when the stored head does not match (number, references.Self),
+//@   -- when the external round is unknown or belongs to the same node ("self references loop"), and when snapshots are
+//@   -- stored for (node, number) ("round not empty": NOT modelled here, the kernel tests len(cache.Snapshots) == 0 on its mirror).
+//@   requires references != nil
+//@   requires [head] SHasRound(StoreVer(recv), node) && SRoundNumber(StoreVer(recv), node) == number && SRoundSelf(StoreVer(recv), node) == references.Self
+//@   requires [external] SHasRound(StoreVer(recv), references.External) && SRoundNodeId(StoreVer(recv), references.External) != SRoundNodeId(StoreVer(recv), node)
+//@   modifies ghost storever
+//@   ensures [fail] err != nil ==> StoreVer(recv) == old(StoreVer(recv))
+//@   ensures [link] err == nil ==>
+//@       SLink(StoreVer(recv), node, old(SRoundNodeId(StoreVer(recv), references.External))) == old(SRoundNumber(StoreVer(recv), references.External))
+//@   ensures [links-frame] err == nil ==> forall t crypto.Hash :: {SLink(StoreVer(recv), node, t)}
+//@       t != old(SRoundNodeId(StoreVer(recv), references.External)) ==> SLink(StoreVer(recv), node, t) == old(SLink(StoreVer(recv), node, t))
+//@   ensures [head-rec] err == nil ==> SHasRound(StoreVer(recv), node) && SRoundNodeId(StoreVer(recv), node) == node && SRoundNumber(StoreVer(recv), node) == number &&
+//@       SRoundSelf(StoreVer(recv), node) == references.Self && SRoundExternal(StoreVer(recv), node) == references.External
+//@   ensures [rounds-kept] err == nil ==> forall h crypto.Hash :: {SHasRound(StoreVer(recv), h)} h != node ==>
+//@       SHasRound(StoreVer(recv), h) == old(SHasRound(StoreVer(recv), h)) && SRoundNodeId(StoreVer(recv), h) == old(SRoundNodeId(StoreVer(recv), h)) &&
+//@       SRoundNumber(StoreVer(recv), h) == old(SRoundNumber(StoreVer(recv), h))
+
+//@ -- ════════════════════════ PART 2: the BadgerStore implementation over T-KV ════════════════════════
+//@ -- Key space (extends storage/zz_contracts_c03_verif.go): "ROUND" + 32 bytes and "LINK" + Blake3(from | to). The prefixes
+//@ -- start with R and L, different from U G D M T F of the kinds 1..6, and both payloads have the fixed width 32.
+//@ -- RoundKeyId is invertible (keyhid). LinkKeyId is NOT assumed injective in (from, to): that would be collision
+//@ -- freeness of Blake3; no clause below needs it.
+//@ uninterp RoundKeyId(h mathint) mathint
+//@ uninterp LinkKeyId(f mathint, t mathint) mathint
+//@ axiom forall h mathint :: {RoundKeyId(h)} keykind(RoundKeyId(h)) == 7 && keyhid(RoundKeyId(h)) == h
+//@ axiom forall f, t mathint :: {LinkKeyId(f, t)} keykind(LinkKeyId(f, t)) == 8
+//@ spec RK(h crypto.Hash) mathint = RoundKeyId(kvval(h))
+//@ spec LK(f crypto.Hash, t crypto.Hash) mathint = LinkKeyId(kvval(f), kvval(t))
+//@ assume func graphRoundKey
+//@   modifies nothing
+//@   ensures fresh(result) && kvkey(result) == RK(hash)
+//@ assume func graphLinkKey
+//@   modifies nothing
+//@   ensures fresh(result) && kvkey(result) == LK(from, to)
+
+//@ -- observations of a transaction view
+//@ spec LinkVal(t badger.Txn, f crypto.Hash, to crypto.Hash) mathint = badger.kvget(t, LK(f, to))
+//@ spec LinkOf(t badger.Txn, f crypto.Hash, to crypto.Hash) mathint = LinkVal(t, f, to) == 0 ? 0 : Be64Dec(LinkVal(t, f, to))
+//@ spec RoundVal(t badger.Txn, h crypto.Hash) mathint = badger.kvget(t, RK(h))
+//@ spec HasRound(t badger.Txn, h crypto.Hash) bool = RoundVal(t, h) != 0
+//@ -- store invariants used as preconditions: a LINK value has 8 bytes (writeLink is the only writer, [written] re-establishes it);
+//@ -- a stored ROUND record has a non-zero Hash (readRound panics otherwise; both writers below store the key as Hash)
+//@ spec LinkLenOK(t badger.Txn, f crypto.Hash, to crypto.Hash) bool = LinkVal(t, f, to) != 0 ==> badger.vallen(LinkVal(t, f, to)) == 8
+//@ spec RoundHashed(t badger.Txn, h crypto.Hash) bool = HasRound(t, h) ==> common.RoundHashOf(RoundVal(t, h)).HasValue()
+
+//@ func readLink
+//@   property C20
+//@   requires txn != nil
+//@   requires [len8] LinkLenOK(*txn, from, to)
+//@   modifies nothing
+//@   ensures [link] err == nil ==> result0 == LinkOf(*txn, from, to)
+
+//@ func writeLink
+//@   property C20
+//@   requires txn != nil
+//@   modifies *txn
+//@   ensures [db] badger.txndb(*txn) == old(badger.txndb(*txn)) -- the transaction stays attached to its DB
+//@   ensures [fail] err != nil ==> *txn == old(*txn)
+//@   ensures [written] err == nil ==> LinkVal(*txn, from, to) != 0 && LinkOf(*txn, from, to) == link && LinkLenOK(*txn, from, to)
+//@   ensures [frame] err == nil ==> forall k mathint :: {badger.kvget(*txn, k)} k != LK(from, to) ==> badger.kvget(*txn, k) == old(badger.kvget(*txn, k))
+
+//@ func readRound
+//@   property C20
+//@   requires txn != nil
+//@   requires [hashed] RoundHashed(*txn, hash)
+//@   modifies nothing
+//@   ensures [err] err != nil ==> result0 == nil
+//@   ensures [absent] err == nil && result0 == nil ==> !HasRound(*txn, hash)
+//@   ensures [found] result0 != nil ==> err == nil && fresh(result0) && HasRound(*txn, hash) && common.RoundDecodes(result0, RoundVal(*txn, hash))
+
+//@ func writeRound
+//@   property C20
+//@   requires txn != nil && round != nil
+//@   modifies *txn
+//@   ensures [db] badger.txndb(*txn) == old(badger.txndb(*txn)) -- the transaction stays attached to its DB
+//@   ensures [fail] err != nil ==> *txn == old(*txn)
+//@   ensures [written] err == nil ==> HasRound(*txn, hash) && common.RoundDecodes(round, RoundVal(*txn, hash))
+//@   ensures [frame] err == nil ==> forall k mathint :: {badger.kvget(*txn, k)} k != RK(hash) ==> badger.kvget(*txn, k) == old(badger.kvget(*txn, k))
+
+//@ -- ExtV: the value id of the external round's record as the transaction sees it at entry
+//@ func startNewRound
+//@   property C20
+//@   requires txn != nil && references != nil
+//@   requires [rounds] number != 0 ==> HasRound(*txn, node) && HasRound(*txn, references.External) -- both records are dereferenced
+//@   requires [hashed] RoundHashed(*txn, node) && RoundHashed(*txn, references.External)
+//@   modifies *txn
+//@   ensures [db] badger.txndb(*txn) == old(badger.txndb(*txn)) -- the transaction stays attached to its DB
+//@   ensures [link] err == nil && number != 0 ==> let x == old(RoundVal(*txn, references.External)) in
+//@       LinkVal(*txn, node, common.RoundNodeIdOf(x)) != 0 && LinkOf(*txn, node, common.RoundNodeIdOf(x)) == common.RoundNumberOf(x) &&
+//@       LinkLenOK(*txn, node, common.RoundNodeIdOf(x))
+//@   -- the closed round: the old head record, re-stored under its hash with Hash := references.Self, Timestamp := selfPreviousStart
+//@   ensures [self-rec] err == nil && number != 0 && references.Self != node ==> let o == old(RoundVal(*txn, node)) in let v == RoundVal(*txn, references.Self) in
+//@       v != 0 && common.RoundHashOf(v) == references.Self && common.RoundTimestampOf(v) == selfPreviousStart &&
+//@       common.RoundNodeIdOf(v) == common.RoundNodeIdOf(o) && common.RoundNumberOf(v) == common.RoundNumberOf(o) &&
+//@       (common.RoundHasRefs(v) <==> common.RoundHasRefs(o)) && (common.RoundHasRefs(o) ==> common.RoundSelfOf(v) == common.RoundSelfOf(o) && common.RoundExternalOf(v) == common.RoundExternalOf(o))
+//@   -- the new head record under the node id
+//@   ensures [head-rec] err == nil ==> let v == RoundVal(*txn, node) in v != 0 && common.RoundHashOf(v) == node && common.RoundNodeIdOf(v) == node &&
+//@       common.RoundNumberOf(v) == number && common.RoundTimestampOf(v) == 0 && common.RoundHasRefs(v) &&
+//@       common.RoundSelfOf(v) == references.Self && common.RoundExternalOf(v) == references.External
+//@   ensures [frame] err == nil ==> let x == old(RoundVal(*txn, references.External)) in forall k mathint :: {badger.kvget(*txn, k)}
+//@       k != RK(node) && (number == 0 || (k != RK(references.Self) && k != LK(node, common.RoundNodeIdOf(x)))) ==> badger.kvget(*txn, k) == old(badger.kvget(*txn, k))
+
+//@ -- the same observations over the committed state of the DB, and the two store invariants over all keys of a kind
+//@ spec DbLinkVal(d badger.DB, f crypto.Hash, to crypto.Hash) mathint = badger.dbget(d, LK(f, to))
+//@ spec DbLinkOf(d badger.DB, f crypto.Hash, to crypto.Hash) mathint = DbLinkVal(d, f, to) == 0 ? 0 : Be64Dec(DbLinkVal(d, f, to))
+//@ spec DbRoundVal(d badger.DB, h crypto.Hash) mathint = badger.dbget(d, RK(h))
+//@ spec DbHasRound(d badger.DB, h crypto.Hash) bool = DbRoundVal(d, h) != 0
+//@ spec RoundsHashed(t badger.Txn) bool = forall k mathint :: {badger.kvget(t, k)} keykind(k) == 7 && badger.kvget(t, k) != 0 ==> common.RoundHashOf(badger.kvget(t, k)).HasValue()
+//@ spec LinksLen8(t badger.Txn) bool = forall k mathint :: {badger.kvget(t, k)} keykind(k) == 8 && badger.kvget(t, k) != 0 ==> badger.vallen(badger.kvget(t, k)) == 8
+//@ spec DbRoundsHashed(d badger.DB) bool = forall k mathint :: {badger.dbget(d, k)} keykind(k) == 7 && badger.dbget(d, k) != 0 ==> common.RoundHashOf(badger.dbget(d, k)).HasValue()
+//@ spec DbLinksLen8(d badger.DB) bool = forall k mathint :: {badger.dbget(d, k)} keykind(k) == 8 && badger.dbget(d, k) != 0 ==> badger.vallen(badger.dbget(d, k)) == 8
+//@ -- StoreInv: representation invariant of the ROUND/LINK part of the store; every method below that writes re-establishes it
+//@ spec StoreInv(s *BadgerStore) bool = DbRoundsHashed(*s.snapshotsDB) && DbLinksLen8(*s.snapshotsDB)
+
+//@ func (s *BadgerStore) ReadLink
+//@   property C20
+//@   requires s != nil && s.snapshotsDB != nil && StoreInv(s)
+//@   modifies nothing
+//@   ensures [link] err == nil ==> result0 == DbLinkOf(*s.snapshotsDB, from, to)
+
+//@ func (s *BadgerStore) ReadRound
+//@   property C20
+//@   requires s != nil && s.snapshotsDB != nil && StoreInv(s)
+//@   modifies nothing
+//@   ensures [err] err != nil ==> result0 == nil
+//@   ensures [absent] err == nil && result0 == nil ==> !DbHasRound(*s.snapshotsDB, hash)
+//@   ensures [found] result0 != nil ==> fresh(result0) && DbHasRound(*s.snapshotsDB, hash) && result0.Hash.HasValue() && common.RoundDecodes(result0, DbRoundVal(*s.snapshotsDB, hash))
+
+//@ func (s *BadgerStore) StartNewRound
+//@   property C20
+//@   requires s != nil && s.snapshotsDB != nil && StoreInv(s) && references != nil
+//@   requires [rounds] number != 0 ==> DbHasRound(*s.snapshotsDB, node) && DbHasRound(*s.snapshotsDB, references.External)
+//@   maypanic -- the `config.Debug` block ("FIXME assert only, remove in future") re-checks what the kernel has established and panics on a violation; no result depends on it
+//@   modifies *s.snapshotsDB
+//@   ensures [atomic] err != nil ==> *s.snapshotsDB == old(*s.snapshotsDB)
+//@   ensures [link] err == nil && number != 0 ==> let x == old(DbRoundVal(*s.snapshotsDB, references.External)) in
+//@       DbLinkVal(*s.snapshotsDB, node, common.RoundNodeIdOf(x)) != 0 && DbLinkOf(*s.snapshotsDB, node, common.RoundNodeIdOf(x)) == common.RoundNumberOf(x)
+//@   ensures [self-rec] err == nil && number != 0 && references.Self != node ==> let o == old(DbRoundVal(*s.snapshotsDB, node)) in let v == DbRoundVal(*s.snapshotsDB, references.Self) in
+//@       v != 0 && common.RoundHashOf(v) == references.Self && common.RoundTimestampOf(v) == finalStart &&
+//@       common.RoundNodeIdOf(v) == common.RoundNodeIdOf(o) && common.RoundNumberOf(v) == common.RoundNumberOf(o)
+//@   ensures [head-rec] err == nil ==> let v == DbRoundVal(*s.snapshotsDB, node) in v != 0 && common.RoundHashOf(v) == node && common.RoundNodeIdOf(v) == node &&
+//@       common.RoundNumberOf(v) == number && common.RoundHasRefs(v) && common.RoundSelfOf(v) == references.Self && common.RoundExternalOf(v) == references.External
+//@   ensures [frame] err == nil ==> let x == old(DbRoundVal(*s.snapshotsDB, references.External)) in forall k mathint :: {badger.dbget(*s.snapshotsDB, k)}
+//@       k != RK(node) && (number == 0 || (k != RK(references.Self) && k != LK(node, common.RoundNodeIdOf(x)))) ==> badger.dbget(*s.snapshotsDB, k) == old(badger.dbget(*s.snapshotsDB, k))
+//@   ensures [inv-kept] node.HasValue() && references.Self.HasValue() ==> StoreInv(s)
+
+//@ -- readSnapshotsForNodeRound scans the SNAPSHOT keys of (node, round) with a badger iterator (not modelled by T-KV).
+//@ -- ASSUMED: it only reads.
+//@ assume func readSnapshotsForNodeRound
+//@   modifies nothing
+
+//@ func (s *BadgerStore) UpdateEmptyHeadRound
+//@   property C20
+//@   requires s != nil && s.snapshotsDB != nil && StoreInv(s) && references != nil
+//@   requires [head] let o == DbRoundVal(*s.snapshotsDB, node) in o != 0 && common.RoundHasRefs(o) && common.RoundNumberOf(o) == number && common.RoundSelfOf(o) == references.Self
+//@   requires [external] DbHasRound(*s.snapshotsDB, references.External) &&
+//@       common.RoundNodeIdOf(DbRoundVal(*s.snapshotsDB, references.External)) != common.RoundNodeIdOf(DbRoundVal(*s.snapshotsDB, node))
+//@   maypanic -- "round not empty": the snapshots stored for (node, number) are read through the badger iterator, which T-KV does not
+//@            -- model. The other four assertion panics are unreachable under [head]/[external]: checked by the hint below.
+//@   hint after readSnapshotsForNodeRound self.Number == number && self.References.Self == references.Self && external != nil && external.NodeId != self.NodeId
+//@   modifies *s.snapshotsDB
+//@   ensures [atomic] err != nil ==> *s.snapshotsDB == old(*s.snapshotsDB)
+//@   ensures [link] err == nil ==> let x == old(DbRoundVal(*s.snapshotsDB, references.External)) in
+//@       DbLinkVal(*s.snapshotsDB, node, common.RoundNodeIdOf(x)) != 0 && DbLinkOf(*s.snapshotsDB, node, common.RoundNodeIdOf(x)) == common.RoundNumberOf(x)
+//@   ensures [head-rec] err == nil ==> let v == DbRoundVal(*s.snapshotsDB, node) in v != 0 && common.RoundHashOf(v) == node && common.RoundNodeIdOf(v) == node &&
+//@       common.RoundNumberOf(v) == number && common.RoundHasRefs(v) && common.RoundSelfOf(v) == references.Self && common.RoundExternalOf(v) == references.External
+//@   ensures [frame] err == nil ==> let x == old(DbRoundVal(*s.snapshotsDB, references.External)) in forall k mathint :: {badger.dbget(*s.snapshotsDB, k)}
+//@       k != RK(node) && k != LK(node, common.RoundNodeIdOf(x)) ==> badger.dbget(*s.snapshotsDB, k) == old(badger.dbget(*s.snapshotsDB, k))
+//@   ensures [inv-kept] node.HasValue() ==> StoreInv(s)
